@@ -19,6 +19,16 @@ def DInterval.isFixed : DInterval → Bool
   | .fixed _ => true
   | .calendar _ => false
 
+def DInterval.isQuarter : DInterval → Bool
+  | .calendar .quarter => true
+  | _ => false
+
+theorem dateBucket_strict_irrelevant {iv : DInterval} (h : iv.isQuarter = false) (s1 s2 : Bool)
+    (off v : Int) : dateBucket s1 iv off v = dateBucket s2 iv off v := by
+  cases iv with
+  | fixed step => rfl
+  | calendar u => cases u <;> first | rfl | simp [DInterval.isQuarter] at h
+
 def CSrc.isF64 : CSrc φ → Bool
   | .terms _ => true
   | .hist _ _ c => c
@@ -30,8 +40,9 @@ def BSpec.safe : BSpec φ κ → Bool
   | .terms _ size minDoc _ => size.isNone && decide (minDoc ≤ 1)
   | .rare _ _ _ => false
   | .hist _ _ _ minDoc _ _ _ => decide (minDoc ≤ 1)
-  | .dhist _ iv offset minDoc ext hard _ aligned =>
-    decide (minDoc ≤ 1) && (aligned || decide (offset = 0) || iv.isFixed || (ext.or hard).isNone)
+  | .dhist _ iv offset minDoc ext hard _ ideal =>
+    decide (minDoc ≤ 1) &&
+      (ideal || ((decide (offset = 0) || iv.isFixed || (ext.or hard).isNone) && !iv.isQuarter))
   | .composite srcs _ _ => srcs.all CSrc.isF64
   | _ => true
 
@@ -182,35 +193,51 @@ theorem rawBuckets_congr (b : BSpec φ κ) (C C' : List (Doc φ κ) → List (No
   have : C = C' := funext h
   rw [this]
 
+theorem rawBuckets_congr_spec (b b' : BSpec φ κ) (hk : keysOf b = keysOf b')
+    (he : extraKeys b = extraKeys b') (hg : eager b = eager b')
+    (C : List (Doc φ κ) → List (Node κ)) (docs : List (Doc φ κ)) :
+    rawBuckets b C docs = rawBuckets b' C docs := by
+  unfold rawBuckets bucketOf inB
+  rw [hk, he, hg]
+
 /-- on a safe request the reference reads the same buckets as the mechanism -/
 theorem rawBuckets_ideal {b : BSpec φ κ} (hs : b.safe = true)
     (C : List (Doc φ κ) → List (Node κ)) (docs : List (Doc φ κ)) :
     rawBuckets b.ideal C docs = rawBuckets b C docs := by
   cases b with
   | dhist f iv o m e h mi a =>
-    have hex : extraKeys (BSpec.dhist f iv o m e h mi true : BSpec φ κ) =
-        extraKeys (BSpec.dhist f iv o m e h mi a : BSpec φ κ) := by
-      simp only [BSpec.safe, Bool.and_eq_true, Bool.or_eq_true, decide_eq_true_eq] at hs
-      obtain ⟨_, hs⟩ := hs
-      simp only [extraKeys]
-      cases hb : e.or h with
-      | none => rfl
-      | some lh =>
-        obtain ⟨lo, hi⟩ := lh
-        simp only
-        congr 1
-        apply fillFrom_congr
-        intro x
-        rcases hs with ((ha | ho) | hf) | hn
-        · subst ha; rfl
-        · subst ho; simp [fillStep]
-        · cases iv with
-          | fixed step => simp [fillStep, addInterval]; omega
-          | calendar u => simp [DInterval.isFixed] at hf
-        · rw [hb] at hn; simp at hn
-    unfold rawBuckets BSpec.ideal
-    simp only [hex]
-    rfl
+    simp only [BSpec.safe, Bool.and_eq_true, Bool.or_eq_true, decide_eq_true_eq,
+      Bool.not_eq_true'] at hs
+    obtain ⟨_, hs⟩ := hs
+    rcases hs with ha | ⟨hs, hq⟩
+    · subst ha; rfl
+    · apply rawBuckets_congr_spec
+      · funext d
+        have e1 : (fun v => (dateBucket (!true) iv o v).map (Key.num (κ := κ))) =
+            (fun v => (dateBucket (!a) iv o v).map (Key.num (κ := κ))) := by
+          funext v; rw [dateBucket_strict_irrelevant hq (!true) (!a)]
+        simp only [BSpec.ideal, keysOf]
+        rw [e1]
+      · simp only [extraKeys, BSpec.ideal]
+        cases hb : e.or h with
+        | none => rfl
+        | some lh =>
+          obtain ⟨lo, hi⟩ := lh
+          simp only
+          rw [dateBucket_strict_irrelevant hq (!true) (!a) o lo,
+            dateBucket_strict_irrelevant hq (!true) (!a) o hi]
+          split
+          · congr 1
+            apply fillFrom_congr
+            intro x
+            rcases hs with (ho | hf) | hn
+            · subst ho; cases a <;> simp [fillStep]
+            · cases iv with
+              | fixed step => cases a <;> simp [fillStep, addInterval] <;> omega
+              | calendar u => simp [DInterval.isFixed] at hf
+            · rw [hb] at hn; simp at hn
+          · rfl
+      · rfl
   | terms _ _ _ _ => rfl
   | rare _ _ _ => rfl
   | range _ _ _ => rfl
